@@ -1,0 +1,67 @@
+//! Read-only verification hooks (only built with the `verif_hooks` feature)
+//!
+//! Thin public wrappers over private lookups, so that an external harness can check the
+//! tables of this very build. Nothing here is used by the crate itself.
+
+use crate::bitboard::Bitboard;
+use crate::types::{Color, Coord};
+use crate::{attack, between};
+
+pub fn king(c: Coord) -> Bitboard {
+    attack::king(c)
+}
+
+pub fn knight(c: Coord) -> Bitboard {
+    attack::knight(c)
+}
+
+pub fn pawn(color: Color, c: Coord) -> Bitboard {
+    attack::pawn(color, c)
+}
+
+pub fn rook(c: Coord, occupied: Bitboard) -> Bitboard {
+    attack::rook(c, occupied)
+}
+
+pub fn bishop(c: Coord, occupied: Bitboard) -> Bitboard {
+    attack::bishop(c, occupied)
+}
+
+pub fn bishop_strict(src: Coord, dst: Coord) -> Bitboard {
+    between::bishop_strict(src, dst)
+}
+
+pub fn rook_strict(src: Coord, dst: Coord) -> Bitboard {
+    between::rook_strict(src, dst)
+}
+
+pub fn is_bishop_valid(src: Coord, dst: Coord) -> bool {
+    between::is_bishop_valid(src, dst)
+}
+
+pub fn is_rook_valid(src: Coord, dst: Coord) -> bool {
+    between::is_rook_valid(src, dst)
+}
+
+/// View of one magic entry: where the lookup for a given occupancy lands
+#[derive(Debug, Clone, Copy)]
+pub struct MagicView {
+    /// Pre-mask applied to the occupancy
+    pub mask: Bitboard,
+    /// Post-mask applied to the looked-up value
+    pub post_mask: Bitboard,
+    /// Offset of this square's sub-table from the start of the shared lookup array
+    pub offset: usize,
+    /// Index inside the sub-table computed for `occupied`
+    pub idx: usize,
+    /// Total length of the shared lookup array
+    pub table_len: usize,
+}
+
+pub fn rook_magic(c: Coord, occupied: Bitboard) -> MagicView {
+    attack::verif_rook_magic(c, occupied)
+}
+
+pub fn bishop_magic(c: Coord, occupied: Bitboard) -> MagicView {
+    attack::verif_bishop_magic(c, occupied)
+}
